@@ -137,11 +137,20 @@ def body_factory(ctx):
         for j, (nm, un) in enumerate(zip(names, units)):
             hb[nm] = xs[:, j] * un
         nt1 = check_rows(spec, prob, data, prob.t_ref, hb, xs, rows_eff, "hand-built rows")
+        # the same table after wrap_K(): every row must still denote the same curve (nothing cached may be stale)
+        if np.any(xs[:, 0] < 0):
+            with ctx.sut("wrap_K on a table whose orbits were already built"):
+                hb.wrap_K()
+            xs_w = xs.copy()
+            xs_w[:, 0] = np.abs(xs_w[:, 0])
+            rows_w = [dict(r, omega=float(hb["omega"][i].to_value(u.rad))) for i, r in enumerate(rows_eff)]
+            check_rows(spec, prob, data, prob.t_ref, hb, xs_w, rows_w, "hand-built rows after wrap_K")
         # ---------------- (ii) rows returned by the sampler
         joker = tj.TheJoker(prior, rng=np.random.default_rng(spec["rng_seed"]))
         liblp = gens.build_samples(spec, extra={"ln_prior": -0.5 * np.arange(len(lib), dtype=float)})
         with ctx.sut("rejection_sample(return_logprobs=True)"):
-            out = joker.rejection_sample(data, liblp, return_logprobs=True, in_memory=spec["path"] == "mem")
+            out = joker.rejection_sample(data, liblp, return_logprobs=True, in_memory=spec["path"] == "mem",
+                                         randomize_prior_order=bool(spec["rng_seed"] % 2), n_batches=1 + spec["rng_seed"] % 3)
         if out.t_ref is None or abs(out.t_ref.tcb.mjd - prob.t_ref) > 1e-9:
             raise Violation("returned samples do not carry the data's reference epoch", samples_t_ref=repr(out.t_ref),
                             data_t_ref=prob.t_ref)
